@@ -96,11 +96,16 @@ Definition dist_size (from to bucket : Z) : Z := Z.quot (sub_ns to from) bucket 
 Definition dist_new (from to bucket : Z) : dist :=
   {| d_from := from; d_to := to; d_bucket := bucket; d_mask := bm_new (dist_size from to bucket) |}.
 
+(* midToIndex as repaired by 6d376ea: a MID beyond int64 milliseconds (mid.Time() would wrap to a
+   time before 1970) is later than any window *)
+Definition max_i64 : Z := two63 - 1.
 Definition mid_to_index (d : dist) (mid : Z) : Z :=
-  let t := to_i64 mid in
-  if t <? d_from d then 0
-  else if t >? d_to d then bm_size (d_mask d) - 1
-  else Z.quot (sub_ns t (d_from d)) (d_bucket d) + 1.
+  if mid >? max_i64 then bm_size (d_mask d) - 1
+  else
+    let t := to_i64 mid in
+    if t <? d_from d then 0
+    else if t >? d_to d then bm_size (d_mask d) - 1
+    else Z.quot (sub_ns t (d_from d)) (d_bucket d) + 1.
 
 Definition dist_add (d : dist) (mid : Z) : dist :=
   {| d_from := d_from d; d_to := d_to d; d_bucket := d_bucket d;
@@ -109,6 +114,20 @@ Definition dist_add (d : dist) (mid : Z) : dist :=
 Definition dist_is_intersecting (d : dist) (from to : Z) : bool :=
   if d_bucket d =? 0 then true
   else bm_has_bits_in (d_mask d) (mid_to_index d from) (mid_to_index d to).
+
+(* ---- behaviour before 6d376ea, kept for documentation (C14_query_end_above_int63_v0_refuted):
+   int64(mid) without the guard, so a MID >= 2^63 lands in the UNDERFLOW bucket *)
+Definition mid_to_index_v0 (d : dist) (mid : Z) : Z :=
+  let t := to_i64 mid in
+  if t <? d_from d then 0
+  else if t >? d_to d then bm_size (d_mask d) - 1
+  else Z.quot (sub_ns t (d_from d)) (d_bucket d) + 1.
+Definition dist_add_v0 (d : dist) (mid : Z) : dist :=
+  {| d_from := d_from d; d_to := d_to d; d_bucket := d_bucket d;
+     d_mask := bm_set (d_mask d) (mid_to_index_v0 d mid) |}.
+Definition dist_is_intersecting_v0 (d : dist) (from to : Z) : bool :=
+  if d_bucket d =? 0 then true
+  else bm_has_bits_in (d_mask d) (mid_to_index_v0 d from) (mid_to_index_v0 d to).
 
 (* the JSON fields: from/to uint64 milliseconds, bucket uint64 SECONDS, bitmask bytes *)
 Record djson := { j_from : Z; j_to : Z; j_bucket : Z; j_bin : list Z }.
@@ -191,7 +210,8 @@ Definition active_info (creation : Z) (mids : list Z) : info :=
      i_dist := None |}.
 
 (* Seal: info.BuildDistribution(sortedIDs) where sortedIDs[0] is the stub ID (MaxUint64, MaxUint64)
-   that every active fraction stores at LID 0 *)
+   that every active fraction stores at LID 0 (since 6d376ea it sets the overflow bucket, before
+   it set the underflow bucket) *)
 Definition stub_mid : Z := u64max.
 Definition sealed_info (creation : Z) (mids : list Z) : info :=
   build_distribution (active_info creation mids) (stub_mid :: mids).
